@@ -237,7 +237,7 @@ func TestC08(t *testing.T) {
 	run.Assume("phase 2: handle offsets are per goroutine (memory.File offsets are documented as not thread-safe); interleavings are whatever the Go scheduler produced under -race")
 
 	replay := run.ReplayCase()
-	n := run.N(4500, 80000)
+	n := run.N(4500, 50000)
 	workers := 12
 	var wg sync.WaitGroup
 	idx := make(chan int, 64)
@@ -259,7 +259,7 @@ func TestC08(t *testing.T) {
 	close(idx)
 	wg.Wait()
 
-	rounds := run.N(24, 240)
+	rounds := run.N(24, 160)
 	par := 4
 	sem := make(chan struct{}, par)
 	var wg2 sync.WaitGroup
